@@ -49,6 +49,8 @@ type Opts struct {
 
 	// SpecCheck: also abstract the run into actions of Spec/Raft.lean (static membership, BaseIndex 0)
 	SpecCheck bool `json:"spec_check"`
+	// JointHeavy: configuration changes enter explicit joint configurations and leave them rarely; more reads
+	JointHeavy bool `json:"joint_heavy,omitempty"`
 	// Fuzz > 0: single-node fuzzing with that many steps instead of a cluster run (fuzz.go)
 	Fuzz int `json:"fuzz,omitempty"`
 	// IDMul (nodefuzz): node ids are i*IDMul; SpreadIDMul spreads 1..7 over the 64-bit range (cluster runs carry
